@@ -23,6 +23,17 @@ type enumOpts struct {
 func faultVariants(sc *Scenario, t0 *TreeOut, o enumOpts, r *RNG) []*Scenario {
 	var out []*Scenario
 	for txi, n := range t0.Firings {
+		if n > 24 {
+			// very deep trees (depth-limit variant): sample positions, biased to both ends
+			for _, k := range []int{1, 2, n/2 + 1, n - 1, n, 1 + r.Intn(n), 1 + r.Intn(n)} {
+				if o.f2 && k >= 1 && k <= n {
+					c := sc.Clone()
+					c.Faults = append(c.Faults, Fault{Kind: "provider", Tx: txi, At: k, Arg: pick(r, f2Flavours)})
+					out = append(out, c)
+				}
+			}
+			continue
+		}
 		for k := 1; k <= n; k++ {
 			if o.f2 {
 				fls := f2Flavours
